@@ -14,6 +14,8 @@ def run(ctx):
     s = ctx['seed'] + 8
     return run_parts(ctx, [
         Part('missing_patterns', 'corr_meta', 'run_missing', [s, 120 if q else 2500]),
+        Part('filter_wrapper_code', 'corr_filterwrappergen', 'run', [s, 100 if q else 2000], count_exceptions=False),
+        Part('matcher_code', 'corr_matchergen', 'run', [s, 100 if q else 2000], count_exceptions=False),
         Part('wrapper_code', 'corr_wrappergen', 'run', [s, 120 if q else 2500], count_exceptions=False),
         Part('joins', 'corr_joins', 'run', [s, 150 if q else 2000, None], specs={'missing_spec'}),
         Part('filter_pair', 'corr_filters', 'run_pairs', [s, 200 if q else 3000], specs={'fp_missing_spec'}),
